@@ -493,6 +493,7 @@ fn gen_words(rng: &mut Prng, thorough: bool) -> Vec<u32> {
         4 if thorough => *rng.pick(&[2000u64, 3000, 262_143, 262_144, 262_145, 262_146, 300_001]),
         5 => rng.range(60, 140),
         6 if rng.chance(1, 3) => rng.range(1026, 2600),
+        7 if rng.chance(1, 25) => *rng.pick(&[262_143u64, 262_144, 262_145, 262_150, 270_001]),
         _ => rng.range(1, 40),
     } as usize;
     let mut v = rng.digits32(len, true);
@@ -514,7 +515,7 @@ fn gen_words(rng: &mut Prng, thorough: bool) -> Vec<u32> {
 fn gen_hint(rng: &mut Prng) -> i128 {
     if rng.chance(1, 5) {
         // lying hints near the truth and odd / even values around internal block sizes
-        return *rng.pick(&[-6i128, -7, -8, 1, 2, 3, 7, 255, 257, 1023, 1024, 1025, 1027, 2049, 4097, 65_537, 262_143, 262_145]);
+        return *rng.pick(&[-6i128, -7, -8, 1, 2, 3, 7, 255, 257, 1023, 1024, 1025, 1027, 2049, 4097, 65_537, 262_143, 262_145, 262_144, 300_000, 1 << 20]);
     }
     match rng.below(8) {
         0 => -1,
@@ -673,7 +674,8 @@ pub fn exec(plan: &Plan) -> RunResult {
                 let v = s.list32("v");
                 let is_i = op == "rt_i";
                 let neg = s.int("neg") != 0;
-                let route = s.int("route");
+                // the string / arithmetic construction routes are quadratic: very long values are built directly
+                let route = if s.list("v").len() > 3000 { 0 } else { s.int("route") };
                 let human = s.int("human") != 0;
                 let deliver = s.int("deliver") as u8;
                 let in_place = s.int("inplace") != 0;
